@@ -128,25 +128,24 @@ func c17Oracle(r *e4Result) (msg string, judged int, laterConn int) {
 		if e.Kind != "B" || e.Pkt == nil || e.Pkt.Type != rtPublish || !strings.HasPrefix(string(e.Pkt.Payload), "in") {
 			continue
 		}
-		// judged only if a marker sent after it on the same connection was acknowledged
-		ok := false
-		var procBy int64
-		for _, sp := range judgedSpan[e.Conn] {
-			if sp.to > e.Seq {
-				ok = true
-				procBy = sp.to // a lower bound is enough for "concurrent": use the marker's send seq... refined below
+		// judged only if the marker that follows it in the same stream was acknowledged: the message was
+		// processed before that PUBACK was written
+		markerID := 0
+		for _, l := range r.Log {
+			if l.Seq > e.Seq && l.Conn == e.Conn && l.Kind == "B" && l.Pkt != nil && l.Pkt.Type == rtPublish && l.Pkt.Topic == vSyncTopic {
+				markerID = l.Pkt.ID
 				break
 			}
 		}
-		if !ok {
-			continue
-		}
-		// the message was processed before the marker's PUBACK was written
+		var procBy int64
 		for _, l := range r.Log {
-			if l.Kind == "W" && l.Conn == e.Conn && l.Pkt.Type == rtPubAck && l.Pkt.ID > vSyncIDBase && l.Seq > e.Seq {
+			if markerID != 0 && l.Kind == "W" && l.Conn == e.Conn && l.Pkt.Type == rtPubAck && l.Pkt.ID == markerID && l.Seq > e.Seq {
 				procBy = l.Seq
 				break
 			}
+		}
+		if procBy == 0 {
+			continue
 		}
 		judged++
 		if e.Conn != firstConn {
